@@ -7,10 +7,12 @@ package inst
 
 import (
 	"errors"
+	"fmt"
 	"hash"
 	"io"
 	"math/big"
 	"sort"
+	"sync/atomic"
 )
 
 // KPoint is a pointer to a library G1Affine (= kzg.Digest) of the curve.
@@ -31,6 +33,25 @@ type KBatchProof struct {
 // ErrKZGInputMutated is returned by the adapter (never by the library) when a call modified the
 // polynomial slice(s) handed to it.
 var ErrKZGInputMutated = errors.New("inst: the library call modified its input polynomial")
+
+// KZGRepeat makes every verifier / folder call of the adapter run twice on the same native objects
+// (proof, digests, key reuse); the two verdicts (and folded values) must agree.
+var KZGRepeat bool
+
+var kzgPurity atomic.Int64
+
+// KZGPurityChecks is the number of verifier / folder calls whose inputs were compared with their snapshots.
+func KZGPurityChecks() int64 { return kzgPurity.Load() }
+
+func kzgPurityChecked() { kzgPurity.Add(1) }
+
+func kzgImpure(curve, fn, what string) {
+	panic(fmt.Sprintf("inst: %s/kzg.%s modified its input: %s is no longer bit-identical to its snapshot", curve, fn, what))
+}
+
+func kzgUnrepeatable(curve, fn string, err1, err2 error) {
+	panic(fmt.Sprintf("inst: %s/kzg.%s is not repeatable: the same call on the same objects returned (%v) and then (%v)", curve, fn, err1, err2))
+}
 
 // KSRS is a *kzg.SRS.
 type KSRS interface {
